@@ -100,6 +100,22 @@ func (c *localCache) Modify(ctx context.Context, name string, opts *Opts, dels [
 	//
 	var err error
 	for _, del := range dels {
+		switch opts.Store {
+		case cachepb.Store_CONFIG, cachepb.Store_STATE:
+			// The cache deletes by the string prefix of the joined path. To not hit siblings that merely
+			// start with the same characters (eth1 / eth10), the entry itself is deleted by its exact key and
+			// everything below it via the prefix that ends with the path delimiter.
+			if len(del) > 0 {
+				err = c.c.DeleteValue(ctx, name, &cache.Opts{
+					Store: getStore(opts.Store),
+					Path:  [][]string{del},
+				})
+				if err != nil {
+					return err
+				}
+				del = append(append(make([]string, 0, len(del)+1), del...), "")
+			}
+		}
 		err = c.c.DeletePrefix(ctx, name, &cache.Opts{
 			Store:    getStore(opts.Store),
 			Path:     [][]string{del}, // TODO:
